@@ -125,6 +125,9 @@ pub fn finish(cfg: &SorterCfg, run: Run, n_inserted: usize) -> Result<(), String
     let mut keys = 0;
     while let Some(_) = it.next().map_err(|e| format!("finish next: {e}"))? {
         keys += 1;
+        if keys > n_inserted + 8 {
+            return Err("finish: the output stream does not terminate".into());
+        }
     }
     if stats.high_water.get() > max_chunks + 2 {
         return Err(format!("during finish: {} chunks existed at the same time, bound {}", stats.high_water.get(), max_chunks + 2));
